@@ -4,6 +4,8 @@ import (
 	"fmt"
 	"go/types"
 	"os"
+	"regexp"
+	"sort"
 	"strings"
 
 	"golang.org/x/tools/go/ssa"
@@ -67,6 +69,11 @@ func (e *Engine) verifyFunc(fn *ssa.Function, c *Contract) (vc *VC, err error) {
 		vc.contract = c
 		fr.contract = c
 	}
+	// calls(F): the number of direct calls of F this activation has made (a local counter kept by
+	// the generator, untouched by callees and by havoc; 0 on entry)
+	for _, n := range callCounterNames(c) {
+		vc.set(st, "S.calls:"+n, "Int", "0")
+	}
 	fr.entry = st.clone()
 	for _, l := range c.Lets {
 		v, t, err := fr.evalExprText(l.Text, st, st, nil)
@@ -89,6 +96,9 @@ func (e *Engine) verifyFunc(fn *ssa.Function, c *Contract) (vc *VC, err error) {
 				return vc, fmt.Errorf("%s:%d: stable %s: %v", c.File, c.Line, sl, lerr)
 			}
 			for _, l := range locs {
+				if l.ElemArr != "" {
+					return vc, fmt.Errorf("%s:%d: stable %s: not supported on a slice of structs", c.File, c.Line, sl)
+				}
 				vc.get(st, l.Key, l.Sort)
 				vc.stable = append(vc.stable, &Shape{Kind: ShField, Key: l.Key, Base: l.Idx[0]})
 			}
@@ -249,4 +259,36 @@ func mergeImplements(c, tc *Contract, fn *ssa.Function) *Contract {
 		n.Flags["nopanic"] = "1"
 	}
 	return &n
+}
+
+var callsRe = regexp.MustCompile(`\bcalls\(([A-Za-z_][A-Za-z0-9_$]*)\)`)
+
+func callCounterNames(c *Contract) []string {
+	if c == nil {
+		return nil
+	}
+	seen := map[string]bool{}
+	var out []string
+	add := func(cls []*Clause) {
+		for _, cl := range cls {
+			for _, m := range callsRe.FindAllStringSubmatch(cl.Text, -1) {
+				if !seen[m[1]] {
+					seen[m[1]] = true
+					out = append(out, m[1])
+				}
+			}
+		}
+	}
+	add(c.Requires)
+	add(c.Ensures)
+	add(c.EnsPanic)
+	for _, l := range c.Loops {
+		add(l.Invariants)
+		add(l.IterEns)
+	}
+	for _, l := range c.AtCall {
+		add(l)
+	}
+	sort.Strings(out)
+	return out
 }
